@@ -257,6 +257,14 @@ func runC11(r *hk.Run) {
 	c11Chains(r, rng, r.Scale(150, 3000))
 }
 
+func urlHostname(hostport string) string {
+	u, err := url.Parse("http://" + hostport + "/")
+	if err != nil {
+		return hostport
+	}
+	return u.Hostname()
+}
+
 func c11Shape(a authority) string {
 	p := "noport"
 	if a.Port != nil {
@@ -270,8 +278,9 @@ func c11Shape(a authority) string {
 }
 
 type c11Hit struct {
-	Host string `json:"host"`
-	Auth bool   `json:"auth"`
+	Host   string `json:"host"`
+	Auth   int    `json:"auth"`   // number of Authorization values received
+	Cookie int    `json:"cookie"` // number of Cookie values received
 }
 
 func c11Chains(r *hk.Run, rng *hk.Rand, n int) {
@@ -282,7 +291,7 @@ func c11Chains(r *hk.Run, rng *hk.Rand, n int) {
 		id := q.Header.Get("X-Chain")
 		mu.Lock()
 		step := len(hits[id])
-		hits[id] = append(hits[id], c11Hit{Host: q.Host, Auth: q.Header.Get("Authorization") != "" && q.Header.Get("Cookie") != ""})
+		hits[id] = append(hits[id], c11Hit{Host: q.Host, Auth: len(q.Header.Values("Authorization")), Cookie: len(q.Header.Values("Cookie"))})
 		sc := scripts[id]
 		mu.Unlock()
 		if step < len(sc) {
@@ -350,7 +359,16 @@ func c11Chains(r *hk.Run, rng *hk.Rand, n int) {
 				hs = hs[:rng.Range(1, len(hs))]
 				pols, coqPols = append(pols, req.AllowedDomainRedirectPolicy(hs...)), append(coqPols, "PAllowedDomain "+hk.CoqStrList(hs))
 			case 5:
-				pols, coqPols = append(pols, req.AlwaysCopyHeaderRedirectPolicy("Authorization", "Cookie")), append(coqPols, "PAlwaysCopy")
+				var names []string
+				a, ck := rng.Bool(), rng.Bool()
+				if a {
+					names = append(names, hk.Pick(rng, []string{"Authorization", "authorization"}))
+				}
+				if ck {
+					names = append(names, "Cookie")
+				}
+				names = append(names, "X-Unrelated")
+				pols, coqPols = append(pols, req.AlwaysCopyHeaderRedirectPolicy(names...)), append(coqPols, "PAlwaysCopy "+hk.CoqBool(a)+" "+hk.CoqBool(ck))
 			case 6:
 				if rng.Chance(30) {
 					pols, coqPols = append(pols, req.NoRedirectPolicy()), append(coqPols, "PNo")
@@ -396,9 +414,47 @@ func c11Chains(r *hk.Run, rng *hk.Rand, n int) {
 			r.Fail(hk.Failure{Sig: "chain:refused-but-all-sent", What: "chain reported refused although every target received a request",
 				Input: map[string]interface{}{"policies": coqPols, "init": init.render(), "targets": targets}, Got: obs})
 		}
+		// oracle for header carrying (Go's cross-origin rule, sticky): once a hop leaves the
+		// initial host's domain-or-subdomain set, Authorization/Cookie must not be delivered
+		// to it or to any later hop unless AlwaysCopy names that header; never duplicated.
+		{
+			alwaysA, alwaysC := false, false
+			for _, p := range coqPols {
+				if strings.HasPrefix(p, "PAlwaysCopy true") {
+					alwaysA = true
+				}
+				if strings.HasPrefix(p, "PAlwaysCopy") && strings.HasSuffix(p, " true") {
+					alwaysC = true
+				}
+			}
+			ih := urlHostname(init.render())
+			stripped := false
+			for k, h := range obs {
+				if k == 0 {
+					continue
+				}
+				th := urlHostname(targets[k-1])
+				if targets[k-1] != init.render() && !(th == ih || (!strings.ContainsAny(th, ":%") && strings.HasSuffix(th, "."+ih))) {
+					stripped = true
+				}
+				wantA, wantC := 1, 1
+				if stripped && !alwaysA {
+					wantA = 0
+				}
+				if stripped && !alwaysC {
+					wantC = 0
+				}
+				if h.Auth != wantA || h.Cookie != wantC {
+					r.Fail(hk.Failure{Sig: fmt.Sprintf("chain:sensitive-headers:hop%d", k), What: "Authorization/Cookie delivered (or withheld/duplicated) contrary to the cross-origin rule and the AlwaysCopy policy",
+						Input: map[string]interface{}{"policies": coqPols, "init": init.render(), "targets": targets, "hop": k},
+						Got: []int{h.Auth, h.Cookie}, Want: []int{wantA, wantC}})
+					break
+				}
+			}
+		}
 		var coqObs []string
 		for _, h := range obs {
-			coqObs = append(coqObs, hk.CoqPair(hk.CoqStr(h.Host), hk.CoqBool(h.Auth)))
+			coqObs = append(coqObs, hk.CoqPair(hk.CoqStr(h.Host), hk.CoqPair(hk.CoqNat(h.Auth), hk.CoqNat(h.Cookie))))
 		}
 		var cp []string
 		for _, p := range coqPols {
